@@ -880,3 +880,10 @@ mod test {
         low_limit.validate_resumption_from(&high_limit).unwrap_err();
     }
 }
+
+#[cfg(feature = "__verif-hooks")]
+#[allow(missing_docs, unreachable_pub, dead_code, unused_imports, unused_qualifications)]
+pub mod verif {
+    use super::*;
+    include!(concat!(env!("QUINN_VERIF_HOOKS"), "/proto/transport_parameters.rs"));
+}
